@@ -65,6 +65,8 @@ class Profile:
         self.p_sealed = 0.15             # an interface whose only method is unexported ("sealed")
         self.p_name_placeholder = 0.1    # a by-name point whose name comes from configuration: wire:"${key}" / "${nokey:name}"
         self.p_embed_points = 0.1        # injection points declared in an embedded struct of an unexported type
+        self.p_initget = 0.0             # a component's Init asks the container for other components (extras: Model/FactoryX.v)
+        self.p_short = 0.0               # a processor short-circuits the instantiation of some components (extras)
         self.perms = 1
         self.__dict__.update(kw)
 
@@ -276,6 +278,21 @@ def gen_scenario(rng, sid, pf):
                 else:
                     c["proc"]["early"][tci] = 1
                     c["proc"]["after"][tci] = 3
+    # extras (outside the assumptions of the Model/Factory.v theorems; modelled by Model/FactoryX.v)
+    for ci, c in enumerate(comps):
+        t = types[c["type"]]
+        if t["init"] and not t.get("bare") and not t["proc"] and rng.random() < pf.p_initget:
+            others = [k for k in range(len(comps)) if k != ci and not types[comps[k]["type"]]["proc"]]
+            if others:
+                # prefer lazy components and components that point back at this one
+                back = [k for k in others if any(p["target"] == ("ptr", c["type"]) or
+                                                 (p["target"][0] == "iface" and p["target"][1] in t["ifaces"])
+                                                 for p in types[comps[k]["type"]]["fields"])]
+                lazy = [k for k in others if types[comps[k]["type"]]["lazy"]]
+                pool = (back * 3 + lazy * 2 + others)
+                c["initGet"] = [rng.choice(pool) for _ in range(rng.randint(1, 2))]
+        if c["proc"] is not None and targets and rng.random() < pf.p_short:
+            c["proc"]["short"] = sorted(set(rng.sample(targets, rng.randint(1, min(2, len(targets))))))
     scn = {"id": sid, "nif": nif, "sealed": sealed, "types": types, "comps": comps, "loaderFail": rng.random() < pf.p_loader_fail,
            "regorder": list(range(len(comps)))}
     if rng.random() < pf.p_valid:
@@ -556,10 +573,12 @@ def runtime_cfg(scn, facts, lookups="all"):
               "ord": c["ord"], "rets": c["rets"], "proc": None}
         if c["proc"] is not None:
             rc["proc"] = {
+                "short": [rank[regname_of(scn, k)] for k in c["proc"].get("short", [])],
                 "early": {str(rank[regname_of(scn, k)]): v for k, v in c["proc"]["early"].items()},
                 "after": {str(rank[regname_of(scn, k)]): v for k, v in c["proc"]["after"].items()},
                 "faults": [[ph, rank[regname_of(scn, k)]] for ph, k in c["proc"]["faults"]],
             }
+        rc["initGet"] = [regname_of(scn, k) for k in c.get("initGet", [])]
         comps.append(rc)
     lk = srt if lookups == "all" else [regname_of(scn, ci) for ci in range(len(scn["comps"]))]
     return {"id": scn["id"], "comps": comps, "regorder": scn["regorder"], "names": rank, "config": config_yaml(scn),
@@ -761,11 +780,24 @@ def coq_obs(res, app_rank=None):
     return "(mkObs %s %s %s %s %s %s)" % (oc, log, vlib.coq_list(fields), vlib.coq_list(lks), la, ops)
 
 
+def coq_extras(scn, rank):
+    shorts, gets = [], []
+    for ci, c in enumerate(scn["comps"]):
+        r = rank[regname_of(scn, ci)]
+        if c.get("proc") and c["proc"].get("short"):
+            shorts += ["(%d, %d)" % (r, rank[regname_of(scn, k)]) for k in c["proc"]["short"]]
+        if c.get("initGet"):
+            gets.append("(%d, %s)" % (r, vlib.coq_list(str(rank[regname_of(scn, k)]) for k in c["initGet"])))
+    if not shorts and not gets:
+        return "no_extras"
+    return "(mkX %s %s)" % (vlib.coq_list(shorts), vlib.coq_list(gets))
+
+
 def coq_case(cid, scn, facts, res, cfg):
     term, rank, srt = coq_scenario(scn, facts)
     lk = vlib.coq_list(str(rank[n]) for n in cfg["lookups"])
     app_rank = [rank[f["name"]] for f in facts if f["isapp"]][0]
-    return "(mkW %d %s %s %s)" % (cid, term, lk, coq_obs(res, app_rank))
+    return "(mkW %d %s %s %s %s)" % (cid, term, lk, coq_obs(res, app_rank), coq_extras(scn, rank))
 
 
 # ------------------------------------------------------------------------------------------------
@@ -858,7 +890,7 @@ def run_batch(ctx, binp, cfgs, tag, case_timeout="10s"):
 
 
 HEADER = ("From Coq Require Import List ZArith Bool.\n"
-          "From IocVerif Require Import Model.App Corr.Wiring Corr.WiringFacts %s.\nImport ListNotations.\n"
+          "From IocVerif Require Import Model.App Model.FactoryX Corr.Wiring Corr.WiringFacts %s.\nImport ListNotations.\n"
           "Notation case := wcase.\n")
 
 
